@@ -77,7 +77,7 @@ ApplyX(s, c) ==
              ELSE Ok(IF c.op = "uniquify" THEN Uniquify(s, c.n) ELSE Flatten(s, c.n))
       [] c.op = "q" -> [s |-> s, out |-> "ok", ret |-> <<>>]
       [] c.op = "compare" -> [s |-> s, out |-> "ok", ret |-> <<Differs(s, c.a, c.b)>>]
-      [] c.op \in {"edif_read", "edif_rt"} ->      \* model: a file round trip yields a self-contained copy
+      [] c.op \in {"edif_read", "edif_rt", "vlog_read", "vlog_rt"} ->      \* model: a file round trip yields a self-contained copy
              IF ~(c.n \in IdsN(s)) THEN Refuse(s)
              ELSE LET r == CloneOf(s, "N", c.n) IN OkRet(r.s, <<r.root>>)
       [] c.op = "clone" ->
@@ -106,8 +106,8 @@ BuildCands(s, sc) ==
                   /\ (nn = NoVal \/ \A y \in SeqSet(s.defKids[pp]) : s.instData[y].name # nn)
                   \* canonical: names are used in order, an unnamed child only after the named ones
                   /\ \A y \in SeqSet(s.defKids[pp]) : s.instRef[y] <= dd
-                  \* no connection has been made yet in the parent (children first, then wires)
-                  /\ \A w \in SeqSet(WiresOf(s, pp)) : s.wirePins[w] = <<>>}}
+                  \* no instance pin has been connected yet in the parent (children first, then their wires)
+                  /\ \A y \in SeqSet(s.defKids[pp]) : \A j \in DOMAIN s.instPins[y] : s.instPins[y][j].wire = None}}
      ELSE {})
     \cup (IF On(sc, "b:connect")
      THEN UNION {LET slots == SlotsOf(s, d)
